@@ -50,11 +50,14 @@ type vmbStep struct {
 }
 
 type vmbWorldCase struct {
-	Id    string    `json:"id"`
-	G     int       `json:"g"`     // genesis nodes
-	X     int       `json:"x"`     // extra signer keys
-	Nodes int       `json:"nodes"` // independently constructed Node objects (1 or 2)
-	Steps []vmbStep `json:"steps"`
+	Id    string `json:"id"`
+	G     int    `json:"g"`     // genesis nodes
+	X     int    `json:"x"`     // extra signer keys
+	Nodes int    `json:"nodes"` // independently constructed Node objects (1 or 2)
+	// duration of one abstract tick in ns; 0 = 10 s. With 1, adjacent ticks are adjacent
+	// nanoseconds (only meaningful while every age in the world stays <= 3 ticks: C11 walks)
+	TickNs uint64    `json:"tickns,omitempty"`
+	Steps  []vmbStep `json:"steps"`
 }
 
 type vmbCases struct {
@@ -90,6 +93,7 @@ type vmbWorld struct {
 	carrier    crypto.Hash
 	replicas   []*vmbReplica
 	custodians map[string]int // custodian address -> update number (0 = genesis)
+	tick       uint64         // ns per abstract tick
 }
 
 // vmbHarnessError is a failure of the harness itself (never a verdict): it aborts the run (exit 2).
@@ -111,7 +115,10 @@ func vmbSignerAddress(label string) common.Address {
 }
 
 func vmbNewWorld(t *testing.T, wc *vmbWorldCase, salt string) *vmbWorld {
-	w := &vmbWorld{t: t, byId: make(map[crypto.Hash]*vmbMember), custodians: make(map[string]int)}
+	w := &vmbWorld{t: t, byId: make(map[crypto.Hash]*vmbMember), custodians: make(map[string]int), tick: vmbTick}
+	if wc.TickNs > 0 {
+		w.tick = wc.TickNs
+	}
 	var sb strings.Builder
 	cust := vmbSignerAddress(salt + "/custodian")
 	fmt.Fprintf(&sb, `{"epoch":%d,"custodian":%q,"nodes":[`, vmbEpoch, cust.String())
@@ -249,7 +256,7 @@ func (w *vmbWorld) member(name string) *vmbMember {
 }
 
 func (w *vmbWorld) real(tick uint64) uint64 {
-	return uint64(time.Unix(vmbEpoch, 0).UnixNano()) + tick*vmbTick
+	return uint64(time.Unix(vmbEpoch, 0).UnixNano()) + tick*w.tick
 }
 
 func (w *vmbWorld) genesisRanks() []int {
@@ -363,9 +370,76 @@ func (w *vmbWorld) observedHistory(node *Node) []vM {
 	out := make([]vM, 0, len(node.allNodesSortedWithState))
 	e := uint64(time.Unix(vmbEpoch, 0).UnixNano())
 	for _, cn := range node.allNodesSortedWithState {
-		out = append(out, vM{"n": w.rankOf(cn.IdForNetwork), "ts": int64(cn.Timestamp-e) / int64(vmbTick), "st": cn.State})
+		out = append(out, vM{"n": w.rankOf(cn.IdForNetwork), "ts": int64(cn.Timestamp-e) / int64(w.tick), "st": cn.State})
 	}
 	return out
+}
+
+// ---------------------------------------------------------------- certificates
+// vmbSign builds a real CoSi certificate over a snapshot of (chainId, round, ts) signed by the
+// keys at the given positions of the key vector publics; privs[i] is the private key of publics[i].
+func vmbSign(chainId crypto.Hash, round, ts uint64, label string, publics []*crypto.Key, privs []*crypto.Key, positions []int) (*common.Snapshot, error) {
+	s := &common.Snapshot{
+		Version:      common.SnapshotVersionCommonEncoding,
+		NodeId:       chainId,
+		RoundNumber:  round,
+		Timestamp:    ts,
+		Transactions: []crypto.Hash{crypto.Blake3Hash([]byte(label))},
+	}
+	s.Hash = s.PayloadHash()
+	nonces := make(map[int]*crypto.CosiNonce)
+	commitments := make(map[int]*crypto.Key)
+	for _, i := range positions {
+		nonce := crypto.CosiCommitNonce(crypto.RandReader())
+		c := nonce.Public()
+		nonces[i], commitments[i] = nonce, &c
+	}
+	sig, err := crypto.CosiAggregateCommitment(commitments)
+	if err != nil {
+		return nil, err
+	}
+	responses := make(map[int]*[32]byte)
+	for _, i := range positions {
+		r, err := nonces[i].Response(sig, privs[i], publics, s.Hash)
+		if err != nil {
+			return nil, err
+		}
+		responses[i] = r
+	}
+	if err := sig.AggregateResponse(publics, responses, s.Hash, true); err != nil {
+		return nil, err
+	}
+	s.Signature = sig
+	return s, nil
+}
+
+// certifyAll signs a snapshot of the chain with EVERY key of ConsensusKeys(round, ts) and passes it
+// through the real verifyFinalization: "final" is what the node would do with such a certificate.
+func (w *vmbWorld) certifyAll(chain *Chain, round, ts uint64, label string) (string, bool) {
+	final := false
+	res, _ := vCall(func() error {
+		ids, publics := chain.ConsensusKeys(round, ts)
+		if len(ids) == 0 {
+			return fmt.Errorf("no keys")
+		}
+		privs := make([]*crypto.Key, len(ids))
+		pos := make([]int, len(ids))
+		for i, id := range ids {
+			m := w.byId[id]
+			if m == nil {
+				return fmt.Errorf("unknown key")
+			}
+			k := m.signer.PrivateSpendKey
+			privs[i], pos[i] = &k, i
+		}
+		s, err := vmbSign(chain.ChainId, round, ts, label, publics, privs, pos)
+		if err != nil {
+			return err
+		}
+		_, final = chain.verifyFinalization(s)
+		return nil
+	})
+	return res, final
 }
 
 // ---------------------------------------------------------------- C10
@@ -400,6 +474,8 @@ func (w *vmbWorld) queryC10(st vmbStep) vM {
 		}
 		ids, _ := chain.ConsensusKeys(round, ts)
 		keys = w.ranks(ids)
+		cres, final := w.certifyAll(chain, round, ts, fmt.Sprintf("vmb-cert/%d/%s", st.T, st.Kind))
+		ev["certres"], ev["final"] = cres, final
 		return nil
 	})
 	ev["res"] = res
@@ -691,7 +767,11 @@ func (w *vmbWorld) queryViews(st vmbStep) vM {
 			k = -1
 		}
 		e := uint64(time.Unix(vmbEpoch, 0).UnixNano())
-		cust = vM{"k": k + 1, "ts": (cur.Timestamp - e) / vmbTick, "nodes": len(cur.Nodes)}
+		cts := (cur.Timestamp - e) / w.tick
+		if k == 0 {
+			cts = 0 // the genesis custodian is written at epoch + 1 ns
+		}
+		cust = vM{"k": k + 1, "ts": cts, "nodes": len(cur.Nodes)}
 		return nil
 	})
 	ev["custres"] = cres
@@ -795,5 +875,113 @@ func TestVerifMembership(t *testing.T) {
 		for _, m := range out[wi] {
 			tr.Emit(m)
 		}
+	}
+}
+
+// ---------------------------------------------------------------- C10: mainnet legacy fallback
+// verifyFinalization retries a certificate that does not verify against the current key set with
+// the key set from before the node-operation window, on the mainnet network id before the
+// signer-set fork. This needs no store: as kernel/removal_consensus_test.go does, a Node is
+// assembled from a membership list (n accepted genesis nodes, the oldest removed inside the
+// window). Certificates are signed against the PRE-removal key vector by its first m keys, for
+// every m, and passed to the real verifyFinalization of the node that knows about the removal.
+func vmbLegacyNode(epoch uint64, network crypto.Hash, states []*CNode, genesis map[crypto.Hash]bool) (*Node, func()) {
+	node := &Node{Epoch: epoch, networkId: network, allNodesSortedWithState: states, genesisNodesMap: genesis}
+	node.nodeStateSequences = node.buildNodeStateSequences(states, false)
+	node.acceptedNodeStateSequences = node.buildNodeStateSequences(states, true)
+	cache, err := ristretto.NewCache(&ristretto.Config[[]byte, any]{NumCounters: 1e3, MaxCost: 1 << 20, BufferItems: 64})
+	if err != nil {
+		vmbFail("cache: %v", err)
+	}
+	node.cacheStore = cache
+	return node, cache.Close
+}
+
+func TestVerifMembershipLegacy(t *testing.T) {
+	path := os.Getenv("VERIF_TRACE_LEGACY")
+	if path == "" {
+		t.Skip("VERIF_TRACE_LEGACY not set")
+	}
+	f, err := os.Create(path)
+	if err != nil {
+		t.Fatal(err)
+	}
+	defer f.Close()
+	emit := func(m vM) {
+		b, _ := json.Marshal(m)
+		f.Write(append(b, '\n'))
+	}
+	network, err := crypto.HashFromString(config.KernelNetworkId)
+	if err != nil {
+		t.Fatal(err)
+	}
+	epoch := mainnetConsensusNodeRemovalSignerSetForkAt - 100*OneDay - uint64(config.KernelNodeAcceptTimeBegin)*uint64(time.Hour)
+	seed := vSeed()
+	for _, part := range strings.Split(os.Getenv("VERIF_LEGACY_SIZES"), ",") {
+		var n int
+		if _, err := fmt.Sscanf(part, "%d", &n); err != nil || n < 8 || n > 50 {
+			continue
+		}
+		type mem struct {
+			id   crypto.Hash
+			addr common.Address
+		}
+		ms := make([]*mem, n)
+		for i := range ms {
+			a := vmbSignerAddress(fmt.Sprintf("vmb-legacy/%d/%d/%d", seed, n, i))
+			ms[i] = &mem{id: a.Hash().ForNetwork(network), addr: a}
+		}
+		sort.Slice(ms, func(i, j int) bool { return ms[i].id.String() < ms[j].id.String() })
+		genesis := make(map[crypto.Hash]bool)
+		priv := make(map[crypto.Hash]*crypto.Key)
+		var accepted []*CNode
+		gen := []int{}
+		for i, m := range ms {
+			genesis[m.id] = true
+			k := m.addr.PrivateSpendKey
+			priv[m.id] = &k
+			accepted = append(accepted, &CNode{IdForNetwork: m.id, Signer: m.addr, Timestamp: epoch, State: common.NodeStateAccepted})
+			gen = append(gen, i+1)
+		}
+		day := uint64(20 + (int(seed)+n)%60)
+		window := epoch + day*OneDay + uint64(config.KernelNodeAcceptTimeBegin)*uint64(time.Hour)
+		rmTick := (window-epoch)/vmbTick + 60 // ten minutes into the window
+		removed := *accepted[0]
+		removed.Timestamp = epoch + rmTick*vmbTick
+		removed.State = common.NodeStateRemoved
+		before, c1 := vmbLegacyNode(epoch, network, accepted, genesis)
+		aware, c2 := vmbLegacyNode(epoch, network, append(append([]*CNode{}, accepted...), &removed), genesis)
+		chainId := ms[1].id
+		bchain := &Chain{node: before, ChainId: chainId}
+		achain := &Chain{node: aware, ChainId: chainId}
+		for _, hours := range []uint64{0, 3, 6} {
+			tick := rmTick + 30 + hours*360
+			ts := epoch + tick*vmbTick
+			ids, publics := bchain.ConsensusKeys(1, ts)
+			cur, _ := achain.ConsensusKeys(1, ts)
+			privs := make([]*crypto.Key, len(ids))
+			for i, id := range ids {
+				privs[i] = priv[id]
+			}
+			for m := 1; m <= len(ids); m++ {
+				pos := make([]int, m)
+				for i := range pos {
+					pos[i] = i
+				}
+				final := false
+				res, _ := vCall(func() error {
+					s, err := vmbSign(chainId, 1, ts, fmt.Sprintf("vmb-legacy-cert/%d/%d/%d", n, tick, m), publics, privs, pos)
+					if err != nil {
+						return err
+					}
+					_, final = achain.verifyFinalization(s)
+					return nil
+				})
+				emit(vM{"ev": "Legacy", "gen": gen, "rm": vM{"n": 1, "ts": rmTick, "st": common.NodeStateRemoved}, "t": tick,
+					"m": m, "klegacy": len(ids), "kcur": len(cur), "res": res, "final": final})
+			}
+		}
+		c1()
+		c2()
 	}
 }
